@@ -1,4 +1,5 @@
 import RsMatterVerif.Model.Admin
+import RsMatterVerif.Model.AdminReset
 import Driver.Util
 /-!
 Shared driver of C07 / C08 / C11: replays administrative histories on `Model/Admin` (the model's
@@ -56,11 +57,20 @@ def parseOp (ws : List String) : Option Op :=
   | ["kvfail", n] => some (.kvfail (nat n))
   | "corrupt" :: _ => some .corrupt
   | ["freset"] => some .freset
+  -- the factory reset with the fault on its k-th store call: for the oracle it is a factory reset, the
+  -- model runs `factoryResetAt` (see `resetAt`, `step`)
+  | ["fresetk", _] => some .freset
   | ["hs", f, n, r] => some (.hs (nat f) (nat n) (nat r))
   | ["hsdone", s] => some (.hsdone (nat s))
   | ["rt", _, _] => some .nop
   | ["coldreset"] => some .coldreset
   | ["fabrecover", i] => some (.fabrecover (nat i))
+  | _ => none
+
+/-- `fresetk <k>`: the position of the failing store call -/
+def resetAt (ws : List String) : Option Nat :=
+  match ws with
+  | ["fresetk", k] => some (nat k)
   | _ => none
 
 structure FabV where
@@ -639,7 +649,10 @@ def step (st : St) (line : String) : St × String :=
             let n1' := dropped.foldl (fun n sid => (Admin.step st.cfg n (.sdrop sid)).1) n1
             let (n2, _) := Admin.step st.cfg n1' .poll
             (n2, .ok)
-          | _, _ => Admin.step st.cfg st.node op
+          | _, _ =>
+            match resetAt ws with
+            | some k => Admin.factoryResetAt st.node k
+            | none => Admin.step st.cfg st.node op
         let isExt : Bool := match op with
           | .ext _ => true
           | _ => false
